@@ -241,6 +241,7 @@ type c08Run struct {
 	handles  map[uint64]recovery.CheckpointHandle
 	uriID    map[string]int
 	snap     map[uint64]map[string]string
+	corrupt  string
 	keep     []any
 }
 
@@ -412,6 +413,12 @@ func runC08Trace(c lib.Case) []string {
 			emit("no-db")
 			continue
 		}
+		if r.corrupt != "" {
+			// a file of a retained checkpoint was overwritten or deleted: the real instance is not driven any further
+			// (its background tasks would read garbage); the next property-level observation shows the damage
+			emit("corrupt " + r.corrupt)
+			continue
+		}
 		db, s := r.db, r.s
 		switch f[0] {
 		case "put", "del":
@@ -565,6 +572,11 @@ func runC08Trace(c lib.Case) []string {
 			emit(r.intact())
 		default:
 			emit("bad-op")
+		}
+		if r.db != nil && f[0] != "get" && f[0] != "scan" && f[0] != "peek" {
+			if st := r.intact(); st != "ok" {
+				r.corrupt = st
+			}
 		}
 	}
 	if os.Getenv("C08_TRACE") != "" { // debugging aid only
@@ -967,9 +979,9 @@ func propC08() *lib.Prop {
 		FeedImpl: true,
 		NumCases: func(tier string) int {
 			if tier == "thorough" {
-				return 3000
+				return 15000
 			}
-			return 300
+			return 1500
 		},
 		Fixed: func(string) []lib.Case { return c08Fixed() },
 		Gen: func(r *lib.Rng, tier string, i int) lib.Case {
